@@ -5,6 +5,7 @@ sys.path.insert(0, os.path.dirname(os.path.abspath(__file__)))
 import mutate
 RESULTS = os.environ.get("MUTATE_RESULTS", "results.jsonl")  # results-swap.jsonl for MUTATE_OPS=swap
 rows = [json.loads(l) for l in open(os.path.join(mutate.ROOT, "out", "mutation", RESULTS)) if l.strip()]
+rows = list({r["mutant"]: r for r in rows}.values())  # last row per mutant (--retry-survivors appends)
 c = collections.Counter(r["result"].split(":")[0] for r in rows)
 by = collections.Counter(r["result"] for r in rows if r["result"].startswith("caught-by"))
 print(dict(c)); print(dict(by))
